@@ -624,6 +624,11 @@ func runC20(c *Ctx) {
 			}
 		})
 		R.Ob(g+"/closes done once", c.P.Pos(f.Pos()), nClose == 1, fmt.Sprintf("%d close(done) sites", nClose))
+		// done is closed before any listener is: Serve tells an orderly Close from a failing listener by looking at done
+		// when Accept fails, so a listener closed first makes Serve return the "use of closed network connection" error
+		for _, lc := range s.Find(f, "icall:iface:(net.Listener).Close") {
+			R.Ob(c.siteKey(lc, "done closed before the listener"), c.P.InstrPos(lc), s.SeenBefore(lc)["builtin:close"], g+" closes a listener on a path that has not closed Server.done yet: Serve, woken by the failing Accept, finds done open and returns the accept error instead of nil")
+		}
 		// the function and the unexported Server helpers it calls (closing code moved into a helper stays in scope)
 		scope := []*ssa.Function{f}
 		scopeSet := map[*ssa.Function]bool{f: true}
